@@ -11,6 +11,9 @@ V=/verif
 W="$V/.work/$ID.$$"
 mkdir -p "$W" "$V/evidence" "$V/.cache"; [ "$MODE" != "--replay" ] && rm -rf "$V/replays/$ID"
 trap 'rm -rf "$W"' EXIT
+# scratch directories of the harnesses (real-kernel replays, goose output) live under the work directory, so shard
+# processes that leave through os.Exit cannot leak them into /tmp
+export TMPDIR="$W/tmp"; mkdir -p "$TMPDIR"
 cd "$V/mc" || exit 3
 LC=$(echo "$ID" | tr 'A-Z' 'a-z')
 
